@@ -301,7 +301,7 @@ func init() {
 	for _, n := range []string{"nondetString", "nondetBool", "nondetInt", "nondetIntRange", "nondetRegexp", "nondetPred", "nondetURLPred",
 		"nondetRewriter", "nondetError", "verifAssume", "verifAssert", "verifReach", "verifProvenance", "verifFreeze", "verifNote",
 		"verifNoteBool", "verifNoteInt", "verifMatch", "verifHasToken", "verifCut", "verifIsTokStr", "verifLower", "verifURLHost", "verifURLScheme", "verifURLOk", "verifURLNorm",
-		"verifEffects", "verifSameObject", "verifWrite", "verifWriteFailed", "verifOr", "verifAnd", "verifImplies", "verifCurrentToken", "verifIte", "verifNot", "verifMatchPrefix", "verifAppended", "verifParam", "verifNoteURL", "verifURLStubCount", "verifURLStubProduced", "verifRU", "verifJoinIf", "verifCallCount", "verifDisjointHeaps"} {
+		"verifEffects", "verifSameObject", "verifWrite", "verifWriteFailed", "verifOr", "verifAnd", "verifImplies", "verifCurrentToken", "verifIte", "verifNot", "verifMatchPrefix", "verifAppended", "verifParam", "verifNoteURL", "verifURLStubCount", "verifURLStubProduced", "verifRU", "verifJoinIf", "verifCallCount", "verifDisjointHeaps", "verifValidURLOk", "verifValidURLOut"} {
 		intrinsicNames[n] = true
 	}
 }
@@ -506,6 +506,10 @@ func (in *Interp) intrinsic(st *State, fr *Frame, name string, args []Value, cc 
 			st.Trace = append(st.Trace, "shared object: "+shared)
 		}
 		return one(smt.BoolC(shared == ""))
+	case "verifValidURLOut":
+		return one(smt.UF("vurl.out", smt.String, termOf(args[0])))
+	case "verifValidURLOk":
+		return one(smt.UF("vurl.ok", smt.Bool, termOf(args[0])))
 	case "verifNot":
 		return one(smt.Not(termOf(args[0])))
 	case "verifMatchPrefix":
